@@ -95,7 +95,6 @@ require (
 	github.com/prometheus/common v0.63.0 // indirect
 	github.com/prometheus/common/sigv4 v0.1.0 // indirect
 	github.com/prometheus/procfs v0.15.1 // indirect
-	github.com/prometheus/prometheus v1.8.2-0.20220714142409-b41e0750abf5 // indirect
 	github.com/rivo/uniseg v0.4.7 // indirect
 	github.com/savsgio/gotils v0.0.0-20230208104028-c358bd845dee // indirect
 	github.com/segmentio/asm v1.2.0 // indirect
@@ -175,6 +174,7 @@ require (
 	github.com/google/pprof v0.0.0-20241029153458-d1b30febd7db
 	github.com/gorilla/mux v1.8.1
 	github.com/metrico/cloki-config v0.0.82
+	github.com/prometheus/prometheus v1.8.2-0.20220714142409-b41e0750abf5
 	go.opentelemetry.io/proto/otlp v1.4.0
 	google.golang.org/protobuf v1.36.5
 )
